@@ -30,6 +30,14 @@ CHECKS = {
             'whitelist path',
             'Held on the executions produced: sha256 of every output file (or the raised exception) identical '
             'across all process variants explored.', '4 C12'),
+    'C04': ('runtime monitoring: round trips through the real generated classes and serializer at the public entry '
+            'points with a dual equality oracle (generated ==, independent AV read-back) and re-encode check',
+            'Held on the executions produced: every valid boundary-biased value of every typed position round-'
+            'tripped in both modes and entry points. One open known finding (alias-of-nullable field).', '4 C04'),
+    'C05': ('runtime monitoring: real encoder output compared with an independent reference encoder written from '
+            'docs/json_serializer.rst and driven by the model',
+            'Held on the executions produced: every encoding equal (kind-strict JSON) to the reference wire '
+            'format and JSON-compatible.', '4 C05'),
 }
 
 PENDING = {}
